@@ -14,7 +14,7 @@ import (
 
 func init() {
 	Registry["C13"] = Set{
-		Explanation: "Decides structural clauses of network FIFO on every frame writer: F1 the link selector handed to send and the receive-queue selector stored in the order byte are pure functions of the sender/receiver identifier (no counter, clock or random leaf); F2 on every path on which KeepNetworkOrder is true (and in writers without that option) the value range of both selectors excludes 0, the round-robin sentinel tested in send and serve — decided with an interval domain over %, &, +, >>, conversions to narrower unsigned types, and one level of helper inlining; a constant 0 is accepted only in the frozen list of writers that have no ordered stream (termination notices, replies addressed by name/event); F3 one worker per receive queue: the producer pushes, then tries the queue lock, and starts the worker only on the lock's success edge with the same queue; the queue index is the order byte modulo the queue count whenever the byte is non-zero; F4 the modulus applied to the link selector for ordered traffic must not change during the connection's life (today it is len(c.pool), which grows while links are joined: known finding F-V). Added while probing: F5 the compression envelope copies the receive-queue selector (byte 6) of the frame it wraps; F6 every options literal a process or meta process builds for a Route{Send,Call}* call sets KeepNetworkOrder from the process's keeporder field.",
+		Explanation: "Decides structural clauses of network FIFO on every frame writer: F1 the link selector handed to send and the receive-queue selector stored in the order byte are pure functions of the sender/receiver identifier (no counter, clock or random leaf); F2 on every path on which KeepNetworkOrder is true (and in writers without that option) the value range of both selectors excludes 0, the round-robin sentinel tested in send and serve — decided with an interval domain over %, &, +, >>, conversions to narrower unsigned types, and one level of helper inlining; a constant 0 is accepted only in the frozen list of writers that have no ordered stream (termination notices, replies addressed by name/event); F3 one worker per receive queue: the producer pushes, then tries the queue lock, and starts the worker only on the lock's success edge with the same queue; the queue index is the order byte modulo the queue count whenever the byte is non-zero; F4 the modulus applied to the link selector for ordered traffic must not change during the connection's life (today it is len(c.pool), which grows while links are joined: known finding F-V). Added while probing: F5 the compression envelope copies the receive-queue selector (byte 6) of the frame it wraps; F6 every options literal a process or meta process builds for a Route{Send,Call}* call sets KeepNetworkOrder from the process's keeporder field. F6 also: when the options value is replaced on some path by the result of a helper, that helper's literal carries the keep-order setting too.",
 		NotDecided: []string{
 			"relative delay of pooled TCP links",
 			"behaviour after a link is lost and re-dialled",
@@ -344,7 +344,45 @@ func c13Option(p *load.Program, r *core.Report) {
 					}
 				})
 			}
-			if set {
+			// the whole options value can also be replaced by the result of a helper on some path: that
+			// helper's literal has to carry the setting as well
+			overwrittenBy := ""
+			for _, g := range family(root(f)) {
+				eachInstr(g, func(i2 ssa.Instruction) {
+					st, ok := i2.(*ssa.Store)
+					if !ok || canonCell(st.Addr) != ssa.Value(cell) || !instrReachable(i2, in) {
+						return
+					}
+					c, isCall := st.Val.(*ssa.Call)
+					if !isCall {
+						return
+					}
+					h := staticCallee(c.Common())
+					if h == nil || len(h.Blocks) == 0 {
+						overwrittenBy = "a dynamic call"
+						return
+					}
+					okH := false
+					eachInstr(h, func(i3 ssa.Instruction) {
+						s3, ok := i3.(*ssa.Store)
+						if !ok {
+							return
+						}
+						if _, fl := fieldOwner(s3.Addr); fl != "KeepNetworkOrder" {
+							return
+						}
+						if _, path, okp := fieldPath(s3.Val); okp && len(path) > 0 && path[len(path)-1] == "keeporder" {
+							okH = true
+						}
+					})
+					if !okH {
+						overwrittenBy = h.Name()
+					}
+				})
+			}
+			if set && overwrittenBy != "" {
+				r.Bad(rule, key, fname(f), p.Pos(in.Pos()), inst, "on some path the options are replaced by the result of "+overwrittenBy+", which leaves KeepNetworkOrder at false: those messages travel round-robin and overtake the ordered ones sent just before")
+			} else if set {
 				r.OK(rule, key, fname(f), p.Pos(in.Pos()), inst, "KeepNetworkOrder = keeporder")
 			} else {
 				r.Bad(rule, key, fname(f), p.Pos(in.Pos()), inst, "the options built for this call leave KeepNetworkOrder at false: the connection picks the link and the receive queue round-robin and two messages of one pair can overtake each other although order keeping is enabled")
